@@ -199,7 +199,7 @@ PROPS['C03'] = dict(
 API_ASSUME = ['T6: a ghost (erased) World parameter is threaded through the API methods and their calls into Store / CommandExecutor / AdmissionPolicy / TTLTicker / id generator / pool',
               'T4: CacheD and Config are re-declared with stand-in field types; T10: (self.config.f)(args) is written self.config.f.verif_call(args); the client weight / hash functions are arbitrary total functions',
               'collaborator contracts are ASSUMED in the Verus unit and checked on the real code by the Kani harnesses named beside them (bounded N where they touch a map)',
-              'CommandExecutor::send queues exactly the given command or returns an error (crossbeam channel semantics are not verified)',
+              'CommandExecutor::send queues exactly the given command or returns an error (decided by verus:worker::CommandExecutor::send against the ASSUMED crossbeam channel contract)',
               'the clock reading is fixed during one API call']
 STORE_Q = ['store/get_n2', 'store/get_ref_n2', 'store/is_present_n2', 'store/put_n2', 'store/put_with_ttl_n2', 'store/delete_n2', 'store/mark_deleted_n2', 'store/update_n2']
 STORE_T = ['store/get_n3', 'store/get_ref_n3', 'store/put_n3', 'store/delete_n3', 'store/mark_deleted_n3', 'store/update_n3']
@@ -491,3 +491,43 @@ for _p, _only in (('C03', [r'Store::put$', r'Store::put_with_ttl$', r'Store::del
     PROPS[_p]['assumptions'] = PROPS[_p]['assumptions'] + STORE_ASSUME
 # C17 collects the panic-freedom obligations of every unit
 PROPS['C17']['verus'] = PROPS['C17']['verus'] + [u for u in ('sampler', 'pool') if u not in PROPS['C17']['verus']]
+
+# unit `ticker`: TTLTicker::{put, update, delete, get} for any number of shards and entries, against an assumed hashbrown::HashMap / RwLock contract
+TICKER_ASSUME = ['hashbrown::HashMap behind parking_lot::RwLock (ASSUMED contract of the dependencies, unit `ticker`): insert / remove / get act on the shard\'s map as on a mathematical map; '
+                 'each write() / read() section is one atomic step; T4: `Arc<[RwLock<HashMap>]>` is declared `Vec<ShardLock>`; shard_index is decided by kani:ttl/shard_index_* (complete)']
+for _p, _only in (('C03', [r'TTLTicker::put$', r'TTLTicker::update$', r'TTLTicker::delete$']), ('C04', [r'TTLTicker::delete$']),
+                  ('C08', [r'TTLTicker::put$', r'TTLTicker::update$', r'TTLTicker::delete$']),
+                  ('C10', [r'TTLTicker::put$', r'TTLTicker::update$', r'TTLTicker::delete$', r'TTLTicker::get$']),
+                  ('C17', None)):
+    PROPS[_p]['verus'] = PROPS[_p]['verus'] + ['ticker']
+    if _only is not None:
+        PROPS[_p].setdefault('verus_only', {})['ticker'] = _only
+    PROPS[_p]['assumptions'] = PROPS[_p]['assumptions'] + TICKER_ASSUME
+
+# the iterator structs are extracted verbatim (a field added to them is seen) and their constructors are under contract
+PROPS['C02']['verus_only']['api'] += [r'CacheD::multi_get_iterator$', r'CacheD::multi_get_map_iterator$']
+
+# C12: a poll is not atomic either - the worker's status write and flag store are placed at every point inside one real poll (instrumentation X2b)
+PROPS['C12']['kani']['quick'] = PROPS['C12']['kani']['quick'] + ['ack/poll_is_correct_under_interference']
+PROPS['C12']['floor'] = {'quick': 12, 'thorough': 12}
+PROPS['C12']['assumptions'] = [a for a in PROPS['C12']['assumptions'] if not a.startswith('each top-level statement of done() and the whole of poll()')] + [
+    'each top-level statement of done() and each top-level statement of poll() is one atomic step with respect to the three shared cells (one atomic load / store or one locked section each); '
+    'inside a poll the environment is the worker executing done(): A1 status := s, A2 flag := true (in this order, checked on the real done() by kani:ack/done_keeps_j_at_every_point), A3 wake - A1 and A2 are placed at every '
+    'point between the statements of the real poll (X2b), A3 after it (poll holds the waker lock)']
+PROPS['C12']['explanation'] += (' A poll into which the worker\'s status write and flag store fall at arbitrary points is still either Ready(real status) or Pending with its waker registered and woken afterwards '
+                                '(kani:ack/poll_is_correct_under_interference, all placements).')
+
+# unit `store` also covers the reads: get / get_ref / contains (closures annotated, rule T7; Option::filter contract)
+_READS = [r'Store::get$', r'Store::get_ref$', r'Store::contains$']
+for _p in ('C02', 'C04', 'C09', 'C16'):
+    if 'store' not in PROPS[_p].get('verus', []):
+        PROPS[_p]['verus'] = PROPS[_p].get('verus', []) + ['store']
+        PROPS[_p]['assumptions'] = PROPS[_p]['assumptions'] + STORE_ASSUME
+    PROPS[_p].setdefault('verus_only', {})
+    PROPS[_p]['verus_only']['store'] = PROPS[_p]['verus_only'].get('store', []) + _READS
+for _p in ('C08', 'C09', 'C03'):
+    if 'store' not in PROPS[_p].get('verus', []):
+        PROPS[_p]['verus'] = PROPS[_p].get('verus', []) + ['store']
+        PROPS[_p]['assumptions'] = PROPS[_p]['assumptions'] + STORE_ASSUME
+    PROPS[_p].setdefault('verus_only', {})
+    PROPS[_p]['verus_only']['store'] = PROPS[_p]['verus_only'].get('store', []) + [r'Store::update$']
